@@ -167,6 +167,15 @@ def f_histosys_compensating(spec, rng):
                     db["hi_data"].pop()
                     db["lo_data"].pop()
                 out.append((f"{key[2]}/{key[1]} on sample {key[0]}: +1 in channel[{ci}], -1 in channel[{cj}]", s2))
+                if key[2] == "histosys":
+                    # the same, on one template only (the other template keeps the right length everywhere)
+                    for tmpl in ("hi_data", "lo_data"):
+                        s3 = copy.deepcopy(spec)
+                        ea = s3["channels"][ci]["samples"][si]["modifiers"][mi]["data"]
+                        eb = s3["channels"][cj]["samples"][sj]["modifiers"][mj]["data"]
+                        ea[tmpl].append(4.5)
+                        eb[tmpl].pop()
+                        out.append((f"histosys/{key[1]} on sample {key[0]}: {tmpl} only +1 in channel[{ci}], -1 in channel[{cj}]", s3))
     return out
 
 
